@@ -52,6 +52,24 @@ def run_history(desc):
         expect_reject = False
         newval = None  # region label dict -> value
 
+        if kind == "array_other_len":
+            # source over the target's letters, one dimension replaced by a same-letter dimension with
+            # another number of items: whatever happens, dims and shape of the target must not change
+            l = tletters[rhs["dim"] % len(tletters)]
+            its = list(target.dims[l].items)
+            other_items = [its[:1], its + ["extra item"], its[: max(1, len(its) - 1)] if len(its) > 1 else its + ["extra item"]][rhs["how"] % 3]
+            ods = fd.DimensionSet(dim_list=[target.dims[x] if x != l else fd.Dimension(letter=l, name=target.dims[l].name, items=other_items) for x in tletters])
+            y = fd.FlodymArray(dims=ods, values=np.full(ods.shape, 2.0))
+            try:
+                target[...] = y
+            except Exception:
+                require(build.snapshot(target) == before, "rejected-assignment-changed-target", f"step {si} (array_other_len)")
+                n_rejected += 1
+            require(list(target.dims.letters) == tletters, "assignment-changed-dims", f"step {si}")
+            require(tuple(target.values.shape) == tuple(target.dims.shape), "assignment-changed-shape", f"step {si}: source with {len(other_items)} items along {l} (target has {len(its)}): values {target.values.shape} vs dims {target.dims.shape}")
+            tm = MArr.from_flodym(target)
+            nontrivial = True
+            continue
         if kind in ("array", "array_missing"):
             RU = rhs_universe(U, sel)
             yd = dict(rhs["y"])
@@ -148,8 +166,11 @@ def histories(draw, mode, max_steps=5, max_dims=4, max_len=3):
     tl = target["letters"]
     steps = []
     for _ in range(draw(st.integers(1, max_steps))):
-        kind = draw(st.sampled_from(["array", "array", "array", "number", "ndarray", "array_missing", "ndarray_wrong"] if mode == "coded" else ["array", "array", "array_missing"]))
+        kind = draw(st.sampled_from(["array", "array", "array", "number", "ndarray", "array_missing", "ndarray_wrong", "array_other_len"] if mode == "coded" else ["array", "array", "array_missing"]))
         allow_list = kind in ("number", "ndarray")
+        if kind == "array_other_len":
+            steps.append({"sel": {}, "syntax": "ellipsis", "rhs": {"kind": kind, "dim": draw(st.integers(0, 5)), "how": draw(st.integers(0, 2))}})
+            continue
         if kind == "ndarray_wrong":
             sel, syntax = {}, "ellipsis"
         else:
@@ -157,6 +178,24 @@ def histories(draw, mode, max_steps=5, max_dims=4, max_len=3):
             syntax = draw(st.sampled_from(["dict_letter", "dict_name", "dict_mixed"] + (["ellipsis"] if not sel else [])))
         rl, ritems, orig = region(U, tl, sel)
         rhs = {"kind": kind}
+        if kind == "array_other_len":
+            # source over the target's letters, one dimension replaced by a same-letter dimension with
+            # another number of items: whatever happens, dims and shape of the target must not change
+            l = tletters[rhs["dim"] % len(tletters)]
+            its = list(target.dims[l].items)
+            other_items = [its[:1], its + ["extra item"], its[: max(1, len(its) - 1)] if len(its) > 1 else its + ["extra item"]][rhs["how"] % 3]
+            ods = fd.DimensionSet(dim_list=[target.dims[x] if x != l else fd.Dimension(letter=l, name=target.dims[l].name, items=other_items) for x in tletters])
+            y = fd.FlodymArray(dims=ods, values=np.full(ods.shape, 2.0))
+            try:
+                target[...] = y
+            except Exception:
+                require(build.snapshot(target) == before, "rejected-assignment-changed-target", f"step {si} (array_other_len)")
+                n_rejected += 1
+            require(list(target.dims.letters) == tletters, "assignment-changed-dims", f"step {si}")
+            require(tuple(target.values.shape) == tuple(target.dims.shape), "assignment-changed-shape", f"step {si}: source with {len(other_items)} items along {l} (target has {len(its)}): values {target.values.shape} vs dims {target.dims.shape}")
+            tm = MArr.from_flodym(target)
+            nontrivial = True
+            continue
         if kind in ("array", "array_missing"):
             surplus_pool = [l for l in allL if l not in [orig[r] for r in rl]]  # incl. single-selected target dims
             surplus = draw(gen.ordered_subtuple(surplus_pool, max_size=2))
